@@ -717,6 +717,11 @@ func (e *pathEngine) step(in ssa.Instruction, st *PState) {
 				id := fmt.Sprintf("%d|fn:%d", e.id(in.Parent()), e.id(f))
 				e.dfns[id] = f
 				st.defers = append(st.defers, id)
+				if e.r.Event != nil {
+					if name := e.r.Event(in); name != "" {
+						st.defers = append(st.defers, fmt.Sprintf("%d|%s", e.id(in.Parent()), name))
+					}
+				}
 				return
 			}
 		}
@@ -727,7 +732,13 @@ func (e *pathEngine) step(in ssa.Instruction, st *PState) {
 		}
 		return
 	case *ssa.Go:
-		// a go statement is not an occurrence of the event on this path
+		// a go statement is not an occurrence of its callee on this path; only rules that name the
+		// go statement itself (extra event functions) see it
+		if e.r.Event != nil {
+			if name := e.r.Event(in); name != "" {
+				e.fire(name, "", st)
+			}
+		}
 		return
 	}
 	if e.r.Event != nil {
